@@ -1,7 +1,739 @@
 /-
-  Property C11 — theorems about QEModel.C11 (stub; to be filled in).
+  Property C11 — lcp_lemke: success means a genuine solution.
+  Theorems about the definitions of `QEModel.C11` (the ones `qedriver_c11` executes),
+  over an arbitrary linearly ordered field `K` (exact arithmetic; the code's tolerances
+  `tol_piv`, `tol_ratio_diff` are parameters of the model: the structural theorems hold
+  for every `tol_piv ≥ 0` and every `tol_ratio_diff`, the feasibility/solution theorems
+  for tolerances `0`).
+
+  Conventions (lcp_lemke.py 196-258): tableau `n × (2n+2)`, columns `w` (0..n-1),
+  `z` (n..2n-1), `z₀` (2n), right-hand side (2n+1); `basis i` = basic variable of row `i`.
 -/
 import QEModel.C11
+import QEProofs.Lemmas.C11Run
+import QEProofs.Lemmas.C11Ray
+import QEProofs.Lemmas.C11Psd
+import QEProofs.Lemmas.C11LexMin
+import QEProofs.Lemmas.C11LexPos
+import QEProofs.Lemmas.C11Rev
+import Mathlib.Algebra.Order.Field.Rat
+import Mathlib.Tactic.NormNum
+
 namespace QE.C11
+open QE QE.Pivot Finset
+
+variable {K : Type} [Field K] [LinearOrder K] [IsStrictOrderedRing K]
+
+/-! ## the first ratio test (lcp_lemke.py 143-154, repaired loop) -/
+
+/-- **T1.** With tie tolerance 0 the hand-written first ratio test returns a row index that
+    minimises `q_i/d_i` over all rows. (Before the repair — `firstPivotRowBuggy`, running minimum
+    never updated — this was false, see `first_pivot_buggy_not_min_witness`; DESIGN.md carried it
+    as a hypothesis "forced by the proof". The repaired loop makes it a theorem, and the
+    hypothesis disappears from everything below.) -/
+theorem first_pivot_row_is_argmin (n : ℕ) (hn : 0 < n) (q d : ℕ → K) :
+    firstPivotRow n q d 0 < n ∧
+    ∀ k, k < n → q (firstPivotRow n q d 0) / d (firstPivotRow n q d 0) ≤ q k / d k :=
+  firstPivotRow_argmin n hn q d
+
+/-- **T1 (tie rule).** With tolerance 0 the first ratio test returns the *last* arg-min: every
+    later row has a strictly larger ratio. This is the choice of the lexicographic rule (the
+    comment "Equivalent to lex_min_ratio_test" at lcp_lemke.py 143): among tied rows `i`, the
+    vectors `e_i/d_i` are lexicographically smallest for the largest `i`. -/
+theorem first_pivot_row_is_last_argmin (n : ℕ) (q d : ℕ → K) :
+    ∀ k, firstPivotRow n q d 0 < k → k < n →
+      q (firstPivotRow n q d 0) / d (firstPivotRow n q d 0) < q k / d k := by
+  intro k hlt hk
+  have h1 := (firstFold q d (List.range' 1 (n - 1)) (0, q 0 / d 0) (fun k => k = 0) rfl rfl
+    (by intro k hk; rw [hk])).1
+  have h := firstFoldLast q d (List.range' 1 (n - 1)) (0, q 0 / d 0) (fun k => k = 0)
+    (List.pairwise_lt_range') (by intro x hx; have := List.mem_range'_1.mp hx; simp only; omega)
+    (by intro k hk x hx; have := List.mem_range'_1.mp hx; omega)
+    (by intro k hk hlt; simp only at hlt; omega) k
+    (by
+      by_cases hk0 : k = 0
+      · exact Or.inl hk0
+      · exact Or.inr (List.mem_range'_1.mpr (by omega)))
+  unfold firstPivotRow at hlt ⊢
+  rw [← h1]
+  exact h hlt
+
+/-- for every tie tolerance the first pivot row is a valid row index -/
+theorem first_pivot_row_lt (n : ℕ) (hn : 0 < n) (q d : ℕ → K) (td : K) :
+    firstPivotRow n q d td < n := firstPivotRow_lt n hn q d td
+
+/-- **T1 (tolerance version).** With a tie tolerance `td ≥ 0` (the code's default is `1e-13`)
+    the chosen row is an arg-min up to `(n−1)·td`: the running minimum can drift upward by at
+    most `td` per accepted row. -/
+theorem first_pivot_row_approx_argmin (n : ℕ) (hn : 0 < n) (q d : ℕ → K) (td : K) (htd : 0 ≤ td) :
+    ∀ k, k < n → q (firstPivotRow n q d td) / d (firstPivotRow n q d td)
+      ≤ q k / d k + ((n - 1 : ℕ) : K) * td := by
+  have h := firstFoldTol q d td htd (List.range' 1 (n - 1)) (0, q 0 / d 0) (fun k => k = 0) 0
+    (le_refl _) rfl (by intro k hk; rw [hk]; simp)
+  obtain ⟨h1, h3⟩ := h
+  intro k hk
+  unfold firstPivotRow
+  rw [← h1]
+  have := h3 k (by
+    by_cases hk0 : k = 0
+    · exact Or.inl hk0
+    · exact Or.inr (List.mem_range'_1.mpr (by omega)))
+  simpa using this
+
+/-- the pre-repair loop on `q = (-1,-3,-2)`, `d = 1`: returns row 2 although row 1 has the
+    minimal ratio; the repaired loop returns row 1. -/
+theorem first_pivot_buggy_not_min_witness :
+    firstPivotRowBuggy 3 (fun i => ([-1, -3, -2] : List ℚ).getD i 0) (fun _ => 1) 0 = 2 ∧
+    firstPivotRow 3 (fun i => ([-1, -3, -2] : List ℚ).getD i 0) (fun _ => 1) 0 = 1 := by
+  constructor <;> decide +kernel
+
+/-- positive definite witness of the pre-repair defect (found by exact search with the model):
+    `M = [[4,-1,0],[-1,2,1],[0,1,3]]` (symmetric, leading minors 4, 7, 17), `q = (-1,-2,-1)`,
+    `d = 1`. The ratios are `-1, -2, -1`: the stale minimum makes the old loop return row 2
+    instead of row 1, the start basis is infeasible, and the run reports **status 0 with
+    `z = (10/17, 23/17, -2/17)`** — a negative component. The repaired run returns a genuine
+    solution (`lemke_success_solves`). -/
+def witM : ℕ → ℕ → ℚ := fnOfMat [[4, -1, 0], [-1, 2, 1], [0, 1, 3]]
+def witq : ℕ → ℚ := fnOfList [-1, -2, -1]
+
+theorem first_pivot_buggy_negative_z_witness :
+    (lemkeRunBuggy 3 witM witq (fun _ => 1) 100 (0 : ℚ) 0).status = 0 ∧
+    getSolution 3 (lemkeRunBuggy 3 witM witq (fun _ => 1) 100 (0 : ℚ) 0).T
+      (lemkeRunBuggy 3 witM witq (fun _ => 1) 100 (0 : ℚ) 0).basis 2 = -2 / 17 ∧
+    firstPivotRowBuggy 3 witq (fun _ => 1) (0 : ℚ) = 2 ∧ firstPivotRow 3 witq (fun _ => 1) (0 : ℚ) = 1 ∧
+    (lcpLemke 3 witM witq (fun _ => 1) 100 (0 : ℚ) 0).success = true ∧
+    (List.range 3).map (lcpLemke 3 witM witq (fun _ => 1) 100 (0 : ℚ) 0).z = [4 / 7, 9 / 7, 0] := by
+  refine ⟨?_, ?_, ?_, ?_, ?_, ?_⟩ <;> decide +kernel
+
+/-! ## structure of every tableau of the run -/
+
+omit [IsStrictOrderedRing K] in
+theorem lemkeRun_eq (n : ℕ) (Mm : ℕ → ℕ → K) (q d : ℕ → K) (maxIter : ℕ) (tp td : K) :
+    lemkeRun n Mm q d maxIter tp td = lemkeLoop n tp td (maxIter - 1) (firstPivot n Mm q d td).1
+      (firstPivot n Mm q d td).2.1 (firstPivot n Mm q d td).2.2 1 := rfl
+
+
+/-- the system `w − Mz − d z₀ = q` read on a vector `x = (w, z, z₀)` -/
+def InitSys (n : ℕ) (Mm : ℕ → ℕ → K) (q d : ℕ → K) (x : ℕ → K) : Prop :=
+  ∀ k, k < n → x k - ∑ j ∈ range n, Mm k j * x (n + j) - d k * x (2 * n) = q k
+
+/-- **T1 `lemke_tableau_equiv`.** For every pivot tolerance `≥ 0`, every tie tolerance, every
+    iteration limit and every exit status: the rows of the final tableau have exactly the
+    solutions of `w − Mz − d z₀ = q` (only `d_i ≠ 0` is needed). -/
+theorem lemke_tableau_equiv (n : ℕ) (hn : 0 < n) (Mm : ℕ → ℕ → K) (q d : ℕ → K)
+    (hd : ∀ i, i < n → d i ≠ 0) (maxIter : ℕ) (tp td : K) (htp : 0 ≤ tp) (x : ℕ → K) :
+    RowsSat (lemkeRun n Mm q d maxIter tp td).T x n ↔ InitSys n Mm q d x := by
+  obtain ⟨h1, he, hc⟩ := firstPivot_inv1 n Mm q d hn hd td
+  have hI := (lemkeLoop_inv1 hn (initTableau n Mm q d) tp td htp (maxIter - 1) _ _ _ 1 h1 he hc).1
+  have := hI.equiv x
+  unfold lemkeRun
+  rw [this]
+  constructor
+  · intro h k hk; exact (init_rowSat n Mm q d x k hk).mp (h k hk)
+  · intro h k hk; exact (init_rowSat n Mm q d x k hk).mpr (h k hk)
+
+/-- **T1 basis bookkeeping.** For every tolerance setting as above the final basis is
+    injective, its columns are unit vectors of the final tableau, `w_i` and `z_i` are never
+    both basic, and on status 0 the artificial variable `2n` is not basic. -/
+theorem lemke_basis_structure (n : ℕ) (hn : 0 < n) (Mm : ℕ → ℕ → K) (q d : ℕ → K)
+    (hd : ∀ i, i < n → d i ≠ 0) (maxIter : ℕ) (tp td : K) (htp : 0 ≤ tp) :
+    let o := lemkeRun n Mm q d maxIter tp td
+    (∀ i, i < n → o.basis i ≤ 2 * n) ∧
+    (∀ i j, i < n → j < n → o.basis i = o.basis j → i = j) ∧
+    (∀ i k, i < n → k < n → o.T.get k (o.basis i) = if k = i then 1 else 0) ∧
+    (∀ i j v, i < n → j < n → v < n → ¬ (o.basis i = v ∧ o.basis j = v + n)) ∧
+    (o.status = 0 → ∀ i, i < n → o.basis i ≠ 2 * n) := by
+  intro o
+  obtain ⟨h1, he, hc⟩ := firstPivot_inv1 n Mm q d hn hd td
+  have hI := lemkeLoop_inv1 hn (initTableau n Mm q d) tp td htp (maxIter - 1) _ _ _ 1 h1 he hc
+  have hI1 : Inv1 n (initTableau n Mm q d) o.T o.basis := hI.1
+  refine ⟨hI1.le, hI1.inj, hI1.unit, ?_, hI.2⟩
+  rintro i j v hi hj hv ⟨e1, e2⟩
+  have := hI1.nopair j i hj hi (by omega)
+  rw [e1, e2] at this
+  unfold complement at this
+  rw [if_pos hv] at this
+  exact this rfl
+
+/-! ## feasibility, almost complementarity, success -/
+
+/-- **T1 `lemke_almost_complementary` / feasibility** (tolerances 0, `d > 0`, some `q_i < 0`):
+    at *every* exit (success, ray, iteration limit) the basic solution `x = (w, z, z₀)` of the
+    final tableau is non-negative, satisfies `w = Mz + q + d z₀` and `w_i z_i = 0`; the vector
+    returned by `_get_solution` is its `z` part; on status 0, `z₀ = 0`. No hypothesis on the
+    first pivot is left. -/
+theorem lemke_almost_complementary (n : ℕ) (hn : 0 < n) (Mm : ℕ → ℕ → K) (q d : ℕ → K)
+    (hd : ∀ i, i < n → 0 < d i) (hq : ∃ i, i < n ∧ q i < 0) (maxIter : ℕ) :
+    let o := lemkeRun n Mm q d maxIter (0 : K) 0
+    let x := basicSol n o.T o.basis
+    (∀ v, 0 ≤ x v) ∧
+    (∀ i, i < n → x i = ∑ j ∈ range n, Mm i j * x (n + j) + q i + d i * x (2 * n)) ∧
+    (∀ i, i < n → x i * x (n + i) = 0) ∧
+    (∀ j, j < n → getSolution n o.T o.basis j = x (n + j)) ∧
+    (o.status = 0 → x (2 * n) = 0) :=
+  lemkeRun_basic n hn Mm q d hd hq maxIter
+
+/-- **T1 `lemke_success_solves`.** Whenever `lcpLemke` reports success (tolerances 0), for
+    every covering vector `d > 0`, every `M`, `q` and every iteration limit, the returned `z`
+    satisfies `z ≥ 0`, `Mz + q ≥ 0` and `z_i (Mz+q)_i = 0` for every `i`. -/
+theorem lemke_success_solves (n : ℕ) (hn : 0 < n) (Mm : ℕ → ℕ → K) (q d : ℕ → K)
+    (hd : ∀ i, i < n → 0 < d i) (maxIter : ℕ)
+    (hs : (lcpLemke n Mm q d maxIter (0 : K) 0).success = true) :
+    LCPSol n Mm q (lcpLemke n Mm q d maxIter (0 : K) 0).z := by
+  unfold lcpLemke at hs ⊢
+  by_cases ht : trivialExit n q = true
+  · rw [if_pos ht]
+    have hq := (trivialExit_iff n q).mp ht
+    refine ⟨fun j _ => le_refl _, ?_, ?_⟩
+    · intro i hi; simpa using hq i hi
+    · intro i _; simp
+  · rw [if_neg ht] at hs ⊢
+    have hq : ∃ i, i < n ∧ q i < 0 := by
+      by_contra hne
+      apply ht
+      rw [trivialExit_iff]
+      intro i hi
+      by_contra hlt
+      exact hne ⟨i, hi, not_le.mp hlt⟩
+    have hst : (lemkeRun n Mm q d maxIter (0 : K) 0).status = 0 := by simpa using hs
+    obtain ⟨hx0, hxrow, hxc, hget, hz0⟩ := lemkeRun_basic n hn Mm q d hd hq maxIter
+    have hz00 := hz0 hst
+    have hw : ∀ i, i < n →
+        ∑ j ∈ range n, Mm i j * getSolution n (lemkeRun n Mm q d maxIter (0 : K) 0).T
+          (lemkeRun n Mm q d maxIter (0 : K) 0).basis j + q i
+        = basicSol n (lemkeRun n Mm q d maxIter (0 : K) 0).T
+          (lemkeRun n Mm q d maxIter (0 : K) 0).basis i := by
+      intro i hi
+      rw [hxrow i hi, hz00, mul_zero, add_zero]
+      congr 1
+      apply Finset.sum_congr rfl
+      intro j hj
+      rw [hget j (mem_range.mp hj)]
+    refine ⟨?_, ?_, ?_⟩
+    · intro j hj; show 0 ≤ getSolution n _ _ j; rw [hget j hj]; exact hx0 _
+    · intro i hi; show 0 ≤ ∑ j ∈ range n, Mm i j * getSolution n _ _ j + q i
+      rw [hw i hi]; exact hx0 _
+    · intro i hi
+      show getSolution n _ _ i * (∑ j ∈ range n, Mm i j * getSolution n _ _ j + q i) = 0
+      rw [hw i hi, hget i hi, mul_comm]; exact hxc i hi
+
+/-- **what survives arbitrary tolerances.** For every pivot tolerance `tp ≥ 0` and every tie
+    tolerance `td` (in particular the code's defaults `1e-7`, `1e-13`, read in exact
+    arithmetic), `d_i ≠ 0`: whenever `lcpLemke` reports success the returned `z` satisfies the
+    complementarity `z_i (Mz+q)_i = 0` for every `i` *exactly*; and `(Mz+q)_i` is the level of
+    `w_i` in the final basic solution. Only the sign conditions `z ≥ 0`, `Mz+q ≥ 0` depend on
+    the ratio test being exact (tolerances 0: `lemke_success_solves`). -/
+theorem lemke_success_complementary_any_tol (n : ℕ) (hn : 0 < n) (Mm : ℕ → ℕ → K) (q d : ℕ → K)
+    (hd : ∀ i, i < n → d i ≠ 0) (maxIter : ℕ) (tp td : K) (htp : 0 ≤ tp)
+    (hs : (lcpLemke n Mm q d maxIter tp td).success = true) :
+    ∀ i, i < n → (lcpLemke n Mm q d maxIter tp td).z i *
+      (∑ j ∈ range n, Mm i j * (lcpLemke n Mm q d maxIter tp td).z j + q i) = 0 := by
+  unfold lcpLemke at hs ⊢
+  by_cases ht : trivialExit n q = true
+  · rw [if_pos ht]
+    intro i _; simp
+  · rw [if_neg ht] at hs ⊢
+    have hst : (lemkeRun n Mm q d maxIter tp td).status = 0 := by simpa using hs
+    obtain ⟨h1, he, hc⟩ := firstPivot_inv1 n Mm q d hn hd td
+    have hI := lemkeLoop_inv1 hn (initTableau n Mm q d) tp td htp (maxIter - 1) _ _ _ 1 h1 he hc
+    have hI1 : Inv1 n (initTableau n Mm q d) (lemkeRun n Mm q d maxIter tp td).T
+        (lemkeRun n Mm q d maxIter tp td).basis := hI.1
+    have hz0 : basicSol n (lemkeRun n Mm q d maxIter tp td).T
+        (lemkeRun n Mm q d maxIter tp td).basis (2 * n) = 0 :=
+      basicSol_eq_zero _ (hI.2 hst)
+    intro i hi
+    show getSolution n _ _ i * (∑ j ∈ range n, Mm i j * getSolution n _ _ j + q i) = 0
+    have hw : ∑ j ∈ range n, Mm i j * getSolution n (lemkeRun n Mm q d maxIter tp td).T
+          (lemkeRun n Mm q d maxIter tp td).basis j + q i
+        = basicSol n (lemkeRun n Mm q d maxIter tp td).T
+          (lemkeRun n Mm q d maxIter tp td).basis i := by
+      rw [basicSol_init Mm q d hI1 i hi, hz0, mul_zero, add_zero]
+      congr 1
+      apply Finset.sum_congr rfl
+      intro j hj
+      rw [getSolution_eq hI1 j (mem_range.mp hj)]
+    rw [hw, getSolution_eq hI1 i hi, mul_comm]
+    exact basicSol_compl hI1 i hi
+
+/-- corollary in the form of the docstring: `z · (Mz + q) = 0` -/
+theorem lemke_success_dot (n : ℕ) (hn : 0 < n) (Mm : ℕ → ℕ → K) (q d : ℕ → K)
+    (hd : ∀ i, i < n → 0 < d i) (maxIter : ℕ)
+    (hs : (lcpLemke n Mm q d maxIter (0 : K) 0).success = true) :
+    ∑ i ∈ range n, (lcpLemke n Mm q d maxIter (0 : K) 0).z i *
+      (∑ j ∈ range n, Mm i j * (lcpLemke n Mm q d maxIter (0 : K) 0).z j + q i) = 0 := by
+  apply Finset.sum_eq_zero
+  intro i hi
+  exact (lemke_success_solves n hn Mm q d hd maxIter hs).2.2 i (mem_range.mp hi)
+
+/-- trivial exit (lcp_lemke.py 126-130): `q ≥ 0` ⇒ success, status 0, no iteration, `z = 0` -/
+theorem lemke_trivial (n : ℕ) (Mm : ℕ → ℕ → K) (q d : ℕ → K) (maxIter : ℕ) (tp td : K)
+    (hq : ∀ i, i < n → 0 ≤ q i) :
+    (lcpLemke n Mm q d maxIter tp td).success = true ∧
+    (lcpLemke n Mm q d maxIter tp td).status = 0 ∧
+    (lcpLemke n Mm q d maxIter tp td).numIter = 0 ∧
+    ∀ j, (lcpLemke n Mm q d maxIter tp td).z j = 0 := by
+  unfold lcpLemke
+  rw [if_pos ((trivialExit_iff n q).mpr hq)]
+  exact ⟨rfl, rfl, rfl, fun _ => rfl⟩
+
+omit [IsStrictOrderedRing K] in
+/-- `success` is exactly `status = 0`, for every input and tolerance -/
+theorem lemke_success_iff_status (n : ℕ) (Mm : ℕ → ℕ → K) (q d : ℕ → K) (maxIter : ℕ) (tp td : K) :
+    (lcpLemke n Mm q d maxIter tp td).success = true ↔
+      (lcpLemke n Mm q d maxIter tp td).status = 0 := by
+  unfold lcpLemke
+  by_cases ht : trivialExit n q = true
+  · rw [if_pos ht]; simp
+  · rw [if_neg ht]; simp
+
+/-! ## ray termination (status 2) -/
+
+/-- **T2 the lexicographic ratio test never fails on a Lemke tableau** (tolerances 0): on
+    every tableau that is row-equivalent to `[I | −M | −d | q]` with unit basic columns — in
+    particular on every tableau of the run, see `lemke_ray_termination` — a pivot column with a
+    positive entry always gets a (unique) pivot row: ties of the ratio `rhs/entry` are always
+    resolved by the columns `0..n-1`, because two rows of the `w`-block cannot be proportional. -/
+theorem lex_ratio_test_total {n : ℕ} {T : M K} {basis : ℕ → ℕ} (Mm : ℕ → ℕ → K) (q d : ℕ → K)
+    (h : Inv1 n (initTableau n Mm q d) T basis) (c : ℕ) :
+    (lexMinRatio T c 0 (0 : K) 0).1 = true ↔ ∃ k, k < n ∧ 0 < T.get k c := by
+  constructor
+  · intro hf
+    obtain ⟨hr, hpos⟩ := lexMinRatio_found_pos T c 0 (0 : K) 0 hf
+    exact ⟨_, by rw [h.nr] at hr; exact hr, hpos⟩
+  · exact lexMinRatio_found_of_pos Mm q d h c
+
+/-- **T2 functional specification of `_lex_min_ratio_test`** (tolerances 0, any tableau, any
+    `slack_start`): when a row is found it has a positive pivot-column entry and its ratio
+    vector `(T[r,rhs], T[r,s], T[r,s+1], …)/T[r,c]` is *strictly* lexicographically smaller
+    than that of every other row with positive entry (`LexPosOn` of the difference: its first
+    non-zero component along `rhs, s, s+1, …` is positive). With `lex_ratio_test_total` (a row
+    is always found on a Lemke tableau) this determines the pivot row uniquely. -/
+theorem lex_ratio_test_is_strict_lexmin (T : M K) (c ss : ℕ)
+    (hf : (lexMinRatio T c ss (0 : K) 0).1 = true) :
+    (lexMinRatio T c ss (0 : K) 0).2 < T.nr ∧ 0 < T.get (lexMinRatio T c ss (0 : K) 0).2 c ∧
+    ∀ k, k < T.nr → k ≠ (lexMinRatio T c ss (0 : K) 0).2 → 0 < T.get k c →
+      LexPosOn (ratioDiff T c (lexMinRatio T c ss (0 : K) 0).2 k)
+        ((T.nc - 1) :: (List.range T.nr).map (· + ss)) :=
+  ⟨(lexMinRatio_found_pos T c ss (0 : K) 0 hf).1, (lexMinRatio_found_pos T c ss (0 : K) 0 hf).2,
+    lexMinRatio_strict T c ss hf⟩
+
+/-- **T2 `lemke_lex_feasible`: lexicographic feasibility of every tableau** (tolerances 0,
+    `d > 0`, some `q_i < 0`; every iteration limit, every exit status). In the final tableau
+    every row `i`, read along (right-hand side, `w`-columns `0, …, n-1`), has a positive first
+    non-zero entry. This is the classical invariant of the lexicographic rule (it contains
+    `rhs ≥ 0` and is what makes the pivot row unique at every step); it holds from the first
+    pivot on because the hand-written first ratio test takes the *last* arg-min
+    (`first_pivot_row_is_last_argmin`). -/
+theorem lemke_lex_feasible (n : ℕ) (hn : 0 < n) (Mm : ℕ → ℕ → K) (q d : ℕ → K)
+    (hd : ∀ i, i < n → 0 < d i) (hq : ∃ i, i < n ∧ q i < 0) (maxIter : ℕ) :
+    ∀ i, i < n → LexPosOn (fun j => (lemkeRun n Mm q d maxIter (0 : K) 0).T.get i j)
+      ((2 * n + 1) :: List.range n) := by
+  obtain ⟨h1, he, hc⟩ := firstPivot_inv1 n Mm q d hn (fun i hi => ne_of_gt (hd i hi)) (0 : K)
+  exact lemkeLoop_lp hn (initTableau n Mm q d) (maxIter - 1) _ _ _ 1 h1 he hc
+    (firstPivot_lp n Mm q d hn hd hq)
+
+/-- **T2 reversibility of the complementary pivot step** (tolerances 0). At a state of the run
+    — tableau/basis satisfying the bookkeeping invariant `Inv1` (`lemke_basis_structure`,
+    `lemke_tableau_equiv`), lexicographically feasible `LP` (`lemke_lex_feasible`), admissible
+    entering column `c` — let `r` be the row chosen by the ratio test and `ℓ = basis r` the leaving
+    variable. Then in the new tableau the ratio test for the column of `ℓ` finds a row, that row is
+    again `r`, pivoting there restores every entry of the old tableau, and the basis update is
+    undone. This is the key lemma of Lemke's finiteness and completeness arguments (an almost
+    complementary basis has at most two almost complementary neighbours); the path argument built
+    on it is not formalised (see the `_partial` theorems). -/
+theorem lemke_step_reversible {n : ℕ} {T : M K} {basis : ℕ → ℕ} {c : ℕ} (hn : 0 < n)
+    (Mm : ℕ → ℕ → K) (q d : ℕ → K) (h : Inv1 n (initTableau n Mm q d) T basis)
+    (he : Enter n basis c) (hlp : LP n T) (hf : (lexMinRatio T c 0 (0 : K) 0).1 = true) :
+    let r := (lexMinRatio T c 0 (0 : K) 0).2
+    lexMinRatio (pivot T c r) (basis r) 0 (0 : K) 0 = (true, r) ∧
+    (∀ i j, i < n → j < 2 * n + 2 → (pivot (pivot T c r) (basis r) r).get i j = T.get i j) ∧
+    setBasis (setBasis basis r c) r (basis r) = basis := by
+  intro r
+  obtain ⟨hr0, hpos⟩ := lexMinRatio_found_pos T c 0 (0 : K) 0 hf
+  have hr : r < n := by rw [h.nr] at hr0; exact hr0
+  obtain ⟨h1, h2⟩ := step_reversible_row hn Mm q d h he hlp hf
+  refine ⟨Prod.ext h1 h2, ?_, ?_⟩
+  · intro i j hi hj
+    exact step_reversible_tableau h hr (ne_of_gt hpos) i j hi hj
+  · funext i
+    unfold setBasis
+    by_cases hir : i = r
+    · rw [if_pos hir, hir]
+    · rw [if_neg hir, if_neg hir]
+
+/-- **T2 `lemke_ray_termination`: status 2 is a genuine secondary ray** (tolerances 0, `d > 0`,
+    some `q_i < 0`). If the run ends with status 2 there is a non-basic column `c < 2n` of the
+    final tableau without positive entry, and with `x` the final basic solution and `r` the
+    direction "increase variable `c`" (`r_c = 1`, `r ≥ 0`), every point `x + t r`, `t ≥ 0`, is
+    non-negative, satisfies `w = Mz + q + d z₀` and `w_i z_i = 0`: an unbounded almost
+    complementary half-line. In particular the ratio test did not give up on an unresolved tie. -/
+theorem lemke_ray_termination (n : ℕ) (hn : 0 < n) (Mm : ℕ → ℕ → K) (q d : ℕ → K)
+    (hd : ∀ i, i < n → 0 < d i) (hq : ∃ i, i < n ∧ q i < 0) (maxIter : ℕ)
+    (hs : (lemkeRun n Mm q d maxIter (0 : K) 0).status = 2) :
+    ∃ c, c < 2 * n ∧ (∀ i, i < n → (lemkeRun n Mm q d maxIter (0 : K) 0).basis i ≠ c) ∧
+      (∀ k, k < n → (lemkeRun n Mm q d maxIter (0 : K) 0).T.get k c ≤ 0) ∧
+      rayDir n (lemkeRun n Mm q d maxIter (0 : K) 0).T (lemkeRun n Mm q d maxIter (0 : K) 0).basis c c = 1 ∧
+      ∀ t : K, 0 ≤ t →
+        let p := fun v => basicSol n (lemkeRun n Mm q d maxIter (0 : K) 0).T
+            (lemkeRun n Mm q d maxIter (0 : K) 0).basis v +
+          t * rayDir n (lemkeRun n Mm q d maxIter (0 : K) 0).T
+            (lemkeRun n Mm q d maxIter (0 : K) 0).basis c v
+        (∀ v, 0 ≤ p v) ∧ InitSys n Mm q d p ∧ ∀ i, i < n → p i * p (n + i) = 0 := by
+  obtain ⟨h1, he, hc⟩ := firstPivot_inv1 n Mm q d hn (fun i hi => ne_of_gt (hd i hi)) (0 : K)
+  have hfe := firstPivot_feas n Mm q d hn hd hq
+  have hI := (lemkeLoop_inv1 hn (initTableau n Mm q d) (0 : K) 0 (le_refl _) (maxIter - 1)
+    _ _ _ 1 h1 he hc).1
+  have hF := lemkeLoop_feas hn (initTableau n Mm q d) (maxIter - 1) _ _ _ 1 h1 he hc hfe
+  obtain ⟨c, hc2, hec, hcol⟩ := lemkeLoop_ray hn Mm q d (maxIter - 1) _ _ _ 1 h1 he hc hs
+  refine ⟨c, hc2, hec.notin, hcol, rayDir_self hec, ?_⟩
+  intro t ht p
+  refine ⟨?_, ?_, ?_⟩
+  · intro v
+    exact add_nonneg (basicSol_nonneg hF v) (mul_nonneg ht (rayDir_nonneg hcol v))
+  · have hrows : RowsSat (lemkeRun n Mm q d maxIter (0 : K) 0).T p n :=
+      fun k hk => ray_rowSat hI hec t k hk
+    have h0 := (hI.equiv p).mp hrows
+    intro k hk
+    exact (init_rowSat n Mm q d p k hk).mp (h0 k hk)
+  · intro i hi
+    exact ray_compl hn hI hec hc2 t i hi
+
+/-- positive definiteness (not necessarily symmetric `M`): `yᵀ M y > 0` for `y ≠ 0` -/
+def PosDef (n : ℕ) (Mm : ℕ → ℕ → K) : Prop :=
+  ∀ y : ℕ → K, (∃ j, j < n ∧ y j ≠ 0) → 0 < ∑ i ∈ range n, y i * ∑ j ∈ range n, Mm i j * y j
+
+omit [IsStrictOrderedRing K] in
+theorem posDef_strictCop (n : ℕ) (Mm : ℕ → ℕ → K) (h : PosDef n Mm) : StrictCop n Mm :=
+  fun y _ ⟨j, hj, hpos⟩ => h y ⟨j, hj, ne_of_gt hpos⟩
+
+/-- positive definite matrices have the sign-reversal (P-matrix) property used below -/
+theorem posDef_noSignReversal (n : ℕ) (Mm : ℕ → ℕ → K) (h : PosDef n Mm) : NoSignReversal n Mm := by
+  intro x hx i hi
+  by_contra hne
+  have hpos := h x ⟨i, hi, hne⟩
+  have hle : ∑ i ∈ range n, x i * ∑ j ∈ range n, Mm i j * x j ≤ 0 :=
+    Finset.sum_nonpos (fun i hi => hx i (mem_range.mp hi))
+  linarith
+
+/-- **T2 (partial) strictly copositive / positive definite `M`: a ray can only be a
+    primary-type ray.** (tolerances 0, `d > 0`, some `q_i < 0`.) If `M` is strictly copositive
+    and the run ends with status 2, then the final tableau is one of the *primary* ray: the
+    column without positive entry is a `w` column `c < n`, every basic variable is a `w` or the
+    artificial variable, and the returned `z` is `0`.
+    *Missing for "success for every q"*: that the complementary pivoting path never returns to
+    such a tableau after the first pivot (Lemke's path argument: under the lexicographic rule
+    every almost complementary basis has exactly two almost complementary neighbours, so the
+    path cannot re-enter its starting vertex); this is decided by the spec run only. -/
+theorem lemke_ray_strictly_copositive_partial (n : ℕ) (hn : 0 < n) (Mm : ℕ → ℕ → K) (q d : ℕ → K)
+    (hd : ∀ i, i < n → 0 < d i) (hcop : StrictCop n Mm) (maxIter : ℕ)
+    (hs : (lemkeRun n Mm q d maxIter (0 : K) 0).status = 2) :
+    ∃ c, c < n ∧ (∀ i, i < n → (lemkeRun n Mm q d maxIter (0 : K) 0).basis i ≠ c) ∧
+      (∀ k, k < n → (lemkeRun n Mm q d maxIter (0 : K) 0).T.get k c ≤ 0) ∧
+      (∀ i, i < n → ((lemkeRun n Mm q d maxIter (0 : K) 0).basis i = 2 * n ∨
+        (lemkeRun n Mm q d maxIter (0 : K) 0).basis i < n)) ∧
+      ∀ j, j < n → getSolution n (lemkeRun n Mm q d maxIter (0 : K) 0).T
+        (lemkeRun n Mm q d maxIter (0 : K) 0).basis j = 0 := by
+  obtain ⟨h1, he, hc⟩ := firstPivot_inv1 n Mm q d hn (fun i hi => ne_of_gt (hd i hi)) (0 : K)
+  have hI := (lemkeLoop_inv1 hn (initTableau n Mm q d) (0 : K) 0 (le_refl _) (maxIter - 1)
+    _ _ _ 1 h1 he hc).1
+  obtain ⟨c, hc2, hec, hcol⟩ := lemkeLoop_ray hn Mm q d (maxIter - 1) _ _ _ 1 h1 he hc hs
+  obtain ⟨hcn, hb⟩ := ray_cop_primary hn Mm q d hd hcop hI hec hc2 hcol
+  refine ⟨c, hcn, hec.notin, hcol, hb, ?_⟩
+  intro j hj
+  have hI' : Inv1 n (initTableau n Mm q d) (lemkeRun n Mm q d maxIter (0 : K) 0).T
+      (lemkeRun n Mm q d maxIter (0 : K) 0).basis := hI
+  rw [getSolution_eq hI' j hj]
+  apply basicSol_eq_zero
+  intro a ha e
+  rcases hb a ha with e' | e'
+  · have : (lemkeRun n Mm q d maxIter (0 : K) 0).basis a = 2 * n := e'
+    omega
+  · have : (lemkeRun n Mm q d maxIter (0 : K) 0).basis a < n := e'
+    omega
+
+/-- **T2 (partial) P-matrices, in the sign-reversal form.** Same conclusion as
+    `lemke_ray_strictly_copositive_partial` when `M` reverses the sign of no non-zero vector
+    (`NoSignReversal`, equivalent to "all principal minors positive" by the Fiedler–Pták theorem,
+    which is not proved here): a status-2 exit can only happen at a primary-ray tableau.
+    *Missing*: the same path argument; the equivalence with the minor definition. -/
+theorem lemke_ray_P_matrix_partial (n : ℕ) (hn : 0 < n) (Mm : ℕ → ℕ → K) (q d : ℕ → K)
+    (hd : ∀ i, i < n → 0 < d i) (hP : NoSignReversal n Mm) (maxIter : ℕ)
+    (hs : (lemkeRun n Mm q d maxIter (0 : K) 0).status = 2) :
+    ∃ c, c < n ∧ (∀ i, i < n → (lemkeRun n Mm q d maxIter (0 : K) 0).basis i ≠ c) ∧
+      (∀ k, k < n → (lemkeRun n Mm q d maxIter (0 : K) 0).T.get k c ≤ 0) ∧
+      (∀ i, i < n → ((lemkeRun n Mm q d maxIter (0 : K) 0).basis i = 2 * n ∨
+        (lemkeRun n Mm q d maxIter (0 : K) 0).basis i < n)) := by
+  obtain ⟨h1, he, hc⟩ := firstPivot_inv1 n Mm q d hn (fun i hi => ne_of_gt (hd i hi)) (0 : K)
+  have hI := (lemkeLoop_inv1 hn (initTableau n Mm q d) (0 : K) 0 (le_refl _) (maxIter - 1)
+    _ _ _ 1 h1 he hc).1
+  obtain ⟨c, hc2, hec, hcol⟩ := lemkeLoop_ray hn Mm q d (maxIter - 1) _ _ _ 1 h1 he hc hs
+  obtain ⟨hcn, hb⟩ := ray_P_primary hn Mm q d hd hP hI hec hc2 hcol
+  exact ⟨c, hcn, hec.notin, hcol, hb⟩
+
+/-- **the artificial variable is basic exactly until success** (every tolerance `tp ≥ 0`,
+    `d_i ≠ 0`): status 0 ⇒ `2n` is not in the final basis; status 1 or 2 ⇒ it still is. -/
+theorem lemke_artificial_basic_iff (n : ℕ) (hn : 0 < n) (Mm : ℕ → ℕ → K) (q d : ℕ → K)
+    (hd : ∀ i, i < n → d i ≠ 0) (maxIter : ℕ) (tp td : K) (htp : 0 ≤ tp) :
+    (∃ i, i < n ∧ (lemkeRun n Mm q d maxIter tp td).basis i = 2 * n) ↔
+      (lemkeRun n Mm q d maxIter tp td).status ≠ 0 := by
+  constructor
+  · rintro ⟨i, hi, hbi⟩ h0
+    exact (lemke_basis_structure n hn Mm q d hd maxIter tp td htp).2.2.2.2 h0 i hi hbi
+  · intro hs
+    rw [lemkeRun_eq] at hs ⊢
+    apply lemkeLoop_art n tp td _ _ _ _ _ _ hs
+    refine ⟨firstPivotRow n q d td, firstPivotRow_lt n hn q d td, ?_⟩
+    rw [firstPivot_snd]
+    unfold setBasis
+    rw [if_pos rfl]
+
+/-- **T2 (partial) positive semidefinite `M`: status 2 certifies infeasibility.**
+    (tolerances 0, `d > 0`, some `q_i < 0`.) If `M` is PSD (`yᵀMy ≥ 0`, `M` not necessarily
+    symmetric) and the run ends with status 2 at a tableau that is *not* of primary-ray type
+    (some `z_j` is basic, e.g. the returned `z ≠ 0`, or the column without positive entry is a `z`
+    column) and whose artificial variable is at a positive level, then `{z ≥ 0, Mz + q ≥ 0}` is
+    empty — a fortiori the LCP has no solution.
+    *Missing for the clause "status 2 only if no solution"*: (i) the exclusion of a return to a
+    primary-ray tableau (same path argument as for `lemke_ray_strictly_copositive_partial`),
+    (ii) the degenerate exit with the artificial variable basic at level 0 (then the returned
+    `z` is in fact a solution although status 2 is reported; with exact lexicographic pivoting
+    this was not observed, with a tie tolerance below the rounding noise it was, see the harness
+    counter `nondefault-tol:psd-ray-but-solvable`). Both are left to the spec run. -/
+theorem lemke_ray_psd_infeasible_partial (n : ℕ) (hn : 0 < n) (Mm : ℕ → ℕ → K) (q d : ℕ → K)
+    (hd : ∀ i, i < n → 0 < d i) (hq : ∃ i, i < n ∧ q i < 0) (hpsd : PSD n Mm) (maxIter : ℕ)
+    (hs : (lemkeRun n Mm q d maxIter (0 : K) 0).status = 2) :
+    ∃ c, c < 2 * n ∧ (∀ i, i < n → (lemkeRun n Mm q d maxIter (0 : K) 0).basis i ≠ c) ∧
+      (∀ k, k < n → (lemkeRun n Mm q d maxIter (0 : K) 0).T.get k c ≤ 0) ∧
+      (¬ (c < n ∧ ∀ a, a < n → ((lemkeRun n Mm q d maxIter (0 : K) 0).basis a = 2 * n ∨
+            (lemkeRun n Mm q d maxIter (0 : K) 0).basis a < n)) →
+        0 < basicSol n (lemkeRun n Mm q d maxIter (0 : K) 0).T
+            (lemkeRun n Mm q d maxIter (0 : K) 0).basis (2 * n) →
+        ¬ ∃ z : ℕ → K, (∀ j, j < n → 0 ≤ z j) ∧
+          (∀ i, i < n → 0 ≤ ∑ j ∈ range n, Mm i j * z j + q i)) := by
+  obtain ⟨h1, he, hc⟩ := firstPivot_inv1 n Mm q d hn (fun i hi => ne_of_gt (hd i hi)) (0 : K)
+  have hfe := firstPivot_feas n Mm q d hn hd hq
+  have hI := (lemkeLoop_inv1 hn (initTableau n Mm q d) (0 : K) 0 (le_refl _) (maxIter - 1)
+    _ _ _ 1 h1 he hc).1
+  have hF := lemkeLoop_feas hn (initTableau n Mm q d) (maxIter - 1) _ _ _ 1 h1 he hc hfe
+  obtain ⟨c, hc2, hec, hcol⟩ := lemkeLoop_ray hn Mm q d (maxIter - 1) _ _ _ 1 h1 he hc hs
+  refine ⟨c, hc2, hec.notin, hcol, ?_⟩
+  intro hnp hB
+  apply ray_psd_infeasible hn Mm q d hd hpsd hI hF hec hc2 hcol _ hB
+  by_contra hA
+  apply hnp
+  apply ray_primary_of_zh_zero hn Mm q d hd hI hec hc2 hcol
+  intro j hj
+  by_contra hne
+  exact hA ⟨j, hj, hne⟩
+
+/-- **iteration counter and status** (every input, every tolerance): `status ∈ {0,1,2}`;
+    `num_iter ≤ max(max_iter, 1)` (the first pivot is made unconditionally); status 1 is
+    reported exactly at the limit; a non-trivial success needs at least two pivots. -/
+theorem lemke_num_iter (n : ℕ) (Mm : ℕ → ℕ → K) (q d : ℕ → K) (maxIter : ℕ) (tp td : K) :
+    (lcpLemke n Mm q d maxIter tp td).status ≤ 2 ∧
+    (lcpLemke n Mm q d maxIter tp td).numIter ≤ max maxIter 1 ∧
+    ((lcpLemke n Mm q d maxIter tp td).status = 1 →
+      (lcpLemke n Mm q d maxIter tp td).numIter = max maxIter 1) ∧
+    (trivialExit n q = false → (lcpLemke n Mm q d maxIter tp td).status = 0 →
+      2 ≤ (lcpLemke n Mm q d maxIter tp td).numIter) := by
+  unfold lcpLemke
+  by_cases ht : trivialExit n q = true
+  · rw [if_pos ht]; simp [ht]
+  · rw [if_neg ht]
+    obtain ⟨h1, h2, h3, h4, h5⟩ := lemkeLoop_count n tp td (maxIter - 1)
+      (firstPivot n Mm q d td).1 (firstPivot n Mm q d td).2.1 (firstPivot n Mm q d td).2.2 1
+    refine ⟨h5, ?_, ?_, ?_⟩
+    · show (lemkeRun n Mm q d maxIter tp td).numIter ≤ _
+      rw [lemkeRun_eq]; omega
+    · intro h
+      show (lemkeRun n Mm q d maxIter tp td).numIter = _
+      rw [lemkeRun_eq] at h ⊢
+      have := h3 h
+      omega
+    · intro _ h
+      show 2 ≤ (lemkeRun n Mm q d maxIter tp td).numIter
+      rw [lemkeRun_eq] at h ⊢
+      have := h4 h
+      omega
+
+/-- **the iteration limit does not matter once the run has ended**: if `lcpLemke` with limit
+    `maxIter ≥ 1` does not report status 1, it returns the very same result for every larger
+    limit (every input, every tolerance). Used by the harness to query the model with a smaller
+    limit than the code's `10^6`. -/
+theorem lemke_fuel_irrelevant (n : ℕ) (Mm : ℕ → ℕ → K) (q d : ℕ → K) (maxIter : ℕ) (tp td : K)
+    (hm : 1 ≤ maxIter) (hs : (lcpLemke n Mm q d maxIter tp td).status ≠ 1) (k : ℕ) :
+    lcpLemke n Mm q d (maxIter + k) tp td = lcpLemke n Mm q d maxIter tp td := by
+  unfold lcpLemke at hs ⊢
+  by_cases ht : trivialExit n q = true
+  · rw [if_pos ht, if_pos ht]
+  · rw [if_neg ht] at hs
+    rw [if_neg ht, if_neg ht]
+    have hs' : (lemkeRun n Mm q d maxIter tp td).status ≠ 1 := hs
+    rw [lemkeRun_eq] at hs'
+    have e : lemkeRun n Mm q d (maxIter + k) tp td = lemkeRun n Mm q d maxIter tp td := by
+      rw [lemkeRun_eq, lemkeRun_eq, show maxIter + k - 1 = (maxIter - 1) + k by omega]
+      exact lemkeLoop_fuel_irrelevant n tp td _ _ _ _ _ hs' k
+    simp only [e]
+
+omit [IsStrictOrderedRing K] in
+/-- **exception path** (Numba's Python error model): `lcpLemkeE` signals `ZeroDivisionError`
+    exactly when the input is not the trivial case and some `d_i = 0`; in particular never for
+    a covering vector `d > 0`, where it returns the result of `lcpLemke`. -/
+theorem lemke_zero_division_iff (n : ℕ) (Mm : ℕ → ℕ → K) (q d : ℕ → K) (maxIter : ℕ) (tp td : K) :
+    lcpLemkeE n Mm q d maxIter tp td = none ↔
+      (trivialExit n q = false ∧ ∃ i, i < n ∧ d i = 0) := by
+  unfold lcpLemkeE divByZero
+  constructor
+  · intro h
+    by_cases hc : (!trivialExit n q && (List.range n).any fun i => d i == 0) = true
+    · rw [Bool.and_eq_true, List.any_eq_true] at hc
+      obtain ⟨h1, i, hi, hdi⟩ := hc
+      exact ⟨by simpa using h1, i, List.mem_range.mp hi, by simpa using hdi⟩
+    · rw [if_neg hc] at h; exact absurd h (by simp)
+  · rintro ⟨h1, i, hi, hdi⟩
+    have hc : (!trivialExit n q && (List.range n).any fun i => d i == 0) = true := by
+      rw [Bool.and_eq_true, List.any_eq_true]
+      exact ⟨by simp [h1], i, List.mem_range.mpr hi, by simpa using hdi⟩
+    rw [if_pos hc]
+
+omit [IsStrictOrderedRing K] in
+theorem lemke_no_exception_of_pos (n : ℕ) (Mm : ℕ → ℕ → K) (q d : ℕ → K) (maxIter : ℕ) (tp td : K)
+    (hd : ∀ i, i < n → 0 < d i) :
+    lcpLemkeE n Mm q d maxIter tp td = some (lcpLemke n Mm q d maxIter tp td) := by
+  cases h : lcpLemkeE n Mm q d maxIter tp td with
+  | none =>
+    obtain ⟨_, i, hi, hdi⟩ := (lemke_zero_division_iff n Mm q d maxIter tp td).mp h
+    exact absurd hdi (ne_of_gt (hd i hi))
+  | some r =>
+    unfold lcpLemkeE at h
+    split at h
+    · exact absurd h (by simp)
+    · exact h.symm ▸ rfl
+
+/-! ## non-vacuity: concrete instances satisfy the hypotheses and exercise the conclusions -/
+
+/-- docstring instance of `lcp_lemke` -/
+def exM : ℕ → ℕ → ℚ := fnOfMat [[1, 0, 0], [2, 1, 0], [2, 2, 1]]
+def exq : ℕ → ℚ := fnOfList [-8, -12, -14]
+def exd : ℕ → ℚ := fun _ => 1
+/-- Murty Ex. 2.9 (secondary ray) -/
+def rayM : ℕ → ℕ → ℚ := fnOfMat [[-1, 0, -3], [1, -2, -5], [-2, -1, -2]]
+def rayq : ℕ → ℚ := fnOfList [-3, -2, -1]
+/-- a problem with ties in `q_i/d_i` and three negative ratios in non-monotone order -/
+def tieq : ℕ → ℚ := fnOfList [-2, -6, -1, -6]
+def tied : ℕ → ℚ := fnOfList [1, 2, 1, 2]
+
+theorem exd_pos : ∀ i, i < 3 → 0 < exd i := fun _ _ => by norm_num [exd]
+
+-- hypotheses of `lemke_success_solves` / `lemke_almost_complementary` hold, success is reached,
+-- after 8 pivots, with z = (8,0,0)
+example : LCPSol 3 exM exq (lcpLemke 3 exM exq exd 1000 (0 : ℚ) 0).z :=
+  lemke_success_solves 3 (by norm_num) exM exq exd exd_pos 1000 (by decide +kernel)
+example : ∃ i, i < 3 ∧ exq i < 0 := ⟨0, by norm_num, by decide +kernel⟩
+example : (lcpLemke 3 exM exq exd 1000 (0 : ℚ) 0).numIter = 8 := by decide +kernel
+example : (List.range 3).map (lcpLemke 3 exM exq exd 1000 (0 : ℚ) 0).z = [8, 0, 0] := by
+  decide +kernel
+-- `lemke_success_complementary_any_tol` at the code's default tolerances 1e-7, 1e-13 (as rationals)
+example := lemke_success_complementary_any_tol 3 (by norm_num) exM exq exd
+  (fun _ _ => by norm_num [exd]) 1000 (1 / 10000000) (1 / 10000000000000) (by norm_num)
+  (by decide +kernel)
+-- `lemke_fuel_irrelevant`: limit 9 (status 0 after 8 pivots) gives what limit 10^6 gives
+example : lcpLemke 3 exM exq exd (9 + 999991) (0 : ℚ) 0 = lcpLemke 3 exM exq exd 9 (0 : ℚ) 0 :=
+  lemke_fuel_irrelevant 3 exM exq exd 9 0 0 (by norm_num) (by decide +kernel) 999991
+-- the iteration limit and the ray exits are reached as well (the almost-complementary theorem
+-- speaks about them too)
+example : (lemkeRun 3 exM exq exd 3 (0 : ℚ) 0).status = 1 := by decide +kernel
+example : (lemkeRun 3 rayM rayq exd 1000 (0 : ℚ) 0).status = 2 := by decide +kernel
+example : ∃ i, i < 3 ∧ rayq i < 0 := ⟨0, by norm_num, by decide +kernel⟩
+-- `lemke_ray_termination` applies to it
+example := lemke_ray_termination 3 (by norm_num) rayM rayq exd exd_pos ⟨0, by norm_num, by decide +kernel⟩
+  1000 (by decide +kernel)
+-- `StrictCop` / `PosDef` are satisfiable (identity, n = 2); the remaining hypothesis `status = 2` of
+-- `lemke_ray_strictly_copositive_partial` is, by Lemke's theorem, never met for such `M` — the theorem
+-- reduces that statement to the exclusion of a return to a primary-ray tableau.
+example : PosDef 2 (fun i j => if i = j then (1 : ℚ) else 0) := by
+  intro y ⟨j, hj, hne⟩
+  simp only [Finset.sum_range_succ, Finset.sum_range_zero]
+  norm_num
+  have : j = 0 ∨ j = 1 := by omega
+  rcases this with e | e <;> subst e
+  · have := mul_self_pos.mpr hne; nlinarith [mul_self_nonneg (y 1)]
+  · have := mul_self_pos.mpr hne; nlinarith [mul_self_nonneg (y 0)]
+-- a PSD instance ending on a ray with `z`-part and positive artificial level: M = [[0,-1],[1,0]] (skew),
+-- q = (-1,-1): w₁ = −z₂ − 1 ≥ 0 is impossible
+def skM : ℕ → ℕ → ℚ := fnOfMat [[0, -1], [1, 0]]
+def skq : ℕ → ℚ := fnOfList [-1, -1]
+theorem skM_psd : PSD 2 skM := by
+  intro y
+  unfold bil
+  simp only [Finset.sum_range_succ, Finset.sum_range_zero]
+  have e : skM 0 0 = 0 ∧ skM 0 1 = -1 ∧ skM 1 0 = 1 ∧ skM 1 1 = 0 := by
+    refine ⟨?_, ?_, ?_, ?_⟩ <;> decide +kernel
+  rw [e.1, e.2.1, e.2.2.1, e.2.2.2]
+  nlinarith
+example : (lemkeRun 2 skM skq exd 1000 (0 : ℚ) 0).status = 2 := by decide +kernel
+example : (List.range 2).map (lemkeRun 2 skM skq exd 1000 (0 : ℚ) 0).basis = [2, 4] := by decide +kernel
+example : 0 < basicSol 2 (lemkeRun 2 skM skq exd 1000 (0 : ℚ) 0).T
+    (lemkeRun 2 skM skq exd 1000 (0 : ℚ) 0).basis 4 := by decide +kernel
+-- all hypotheses of `lemke_ray_psd_infeasible_partial` hold on this instance
+example := lemke_ray_psd_infeasible_partial 2 (by norm_num) skM skq exd (fun _ _ => by norm_num [exd])
+  ⟨0, by norm_num, by decide +kernel⟩ skM_psd 1000 (by decide +kernel)
+example : NoSignReversal 2 (fun i j => if i = j then (1 : ℚ) else 0) := by
+  apply posDef_noSignReversal
+  intro y ⟨j, hj, hne⟩
+  simp only [Finset.sum_range_succ, Finset.sum_range_zero]
+  norm_num
+  have : j = 0 ∨ j = 1 := by omega
+  rcases this with e | e <;> subst e
+  · have := mul_self_pos.mpr hne; nlinarith [mul_self_nonneg (y 1)]
+  · have := mul_self_pos.mpr hne; nlinarith [mul_self_nonneg (y 0)]
+-- the witness matrix of `first_pivot_buggy_negative_z_witness` is positive definite:
+-- yᵀMy = 3a² + (a−b)² + (b+c)² + 2c²
+example : PosDef 3 witM := by
+  intro y ⟨j, hj, hne⟩
+  simp only [Finset.sum_range_succ, Finset.sum_range_zero]
+  have e : witM 0 0 = 4 ∧ witM 0 1 = -1 ∧ witM 0 2 = 0 ∧ witM 1 0 = -1 ∧ witM 1 1 = 2 ∧ witM 1 2 = 1 ∧
+      witM 2 0 = 0 ∧ witM 2 1 = 1 ∧ witM 2 2 = 3 := by
+    refine ⟨?_, ?_, ?_, ?_, ?_, ?_, ?_, ?_, ?_⟩ <;> decide +kernel
+  obtain ⟨e1, e2, e3, e4, e5, e6, e7, e8, e9⟩ := e
+  rw [e1, e2, e3, e4, e5, e6, e7, e8, e9]
+  have key : 0 + y 0 * (0 + 4 * y 0 + -1 * y 1 + 0 * y 2) + y 1 * (0 + -1 * y 0 + 2 * y 1 + 1 * y 2)
+      + y 2 * (0 + 0 * y 0 + 1 * y 1 + 3 * y 2)
+      = 3 * (y 0 * y 0) + (y 0 - y 1) * (y 0 - y 1) + (y 1 + y 2) * (y 1 + y 2) + 2 * (y 2 * y 2) := by ring
+  rw [key]
+  have h0 := mul_self_nonneg (y 0)
+  have h1 := mul_self_nonneg (y 0 - y 1)
+  have h2 := mul_self_nonneg (y 1 + y 2)
+  have h3 := mul_self_nonneg (y 2)
+  have : j = 0 ∨ j = 1 ∨ j = 2 := by omega
+  rcases this with e | e | e <;> subst e
+  · have := mul_self_pos.mpr hne; linarith
+  · by_cases hy0 : y 0 = 0
+    · have : 0 < (y 0 - y 1) * (y 0 - y 1) := by
+        apply mul_self_pos.mpr; rw [hy0, zero_sub]; exact neg_ne_zero.mpr hne
+      linarith
+    · have := mul_self_pos.mpr hy0; linarith
+  · have := mul_self_pos.mpr hne; linarith
+-- `lemke_step_reversible`, `lemke_lex_feasible`: the state after the first pivot of the docstring instance
+-- satisfies `Inv1`, `Enter`, `LP`, and its ratio test finds a row
+example :=
+  lemke_step_reversible (n := 3) (by norm_num) exM exq exd
+    (firstPivot_inv1 3 exM exq exd (by norm_num) (fun i hi => ne_of_gt (exd_pos i hi)) (0 : ℚ)).1
+    (firstPivot_inv1 3 exM exq exd (by norm_num) (fun i hi => ne_of_gt (exd_pos i hi)) (0 : ℚ)).2.1
+    (firstPivot_lp 3 exM exq exd (by norm_num) exd_pos ⟨0, by norm_num, by decide +kernel⟩)
+    (by decide +kernel)
+-- `lex_ratio_test_is_strict_lexmin`: a tableau with a tie in the first pass (rows 0 and 1 have ratio 2),
+-- resolved by the slack columns
+def tieT : M ℚ := M.ofRows [[1, 0, 2, 4], [0, 1, 1, 2]]
+example : lexMinRatio tieT 2 0 (0 : ℚ) 0 = (true, 1) := by decide +kernel
+example : (minRatioNoTie tieT 2 3 [0, 1] (0 : ℚ) 0).length = 2 := by decide +kernel
+-- first ratio test: ties (rows 1 and 3 share the minimum −3): the last one is taken
+example : firstPivotRow 4 tieq tied (0 : ℚ) = 3 := by decide +kernel
+example : firstPivotRowBuggy 4 tieq tied (0 : ℚ) = 3 := by decide +kernel
+-- trivial exit
+example : ∀ i, i < 2 → (0 : ℚ) ≤ (fnOfList [0, 3] : ℕ → ℚ) i := by
+  intro i hi
+  have : i = 0 ∨ i = 1 := by omega
+  rcases this with h | h <;> subst h <;> decide +kernel
 
 end QE.C11
